@@ -67,6 +67,7 @@ def Cst.orderOk : Cst → Bool
   | .set _ _ its _ => its.orderOk .set .none false false
   | .paren its _ => its.orderOk .paren .none false false
   | .app f cs _ a => f.orderOk && appOrderOk cs && a.orderOk
+  | .kw _ _ _ h _ _ _ _ b => h.orderOk && b.orderOk
 def Items.orderOk : Items → Mode → Prev → Bool → Bool → Bool
   | .nil, _, _, _, _ => true
   | .cmt g _ rest, m, prev, pending, hasItem =>
@@ -88,6 +89,7 @@ def Cst.orderOkSeq : Cst → Bool
   | .set _ _ its _ => its.orderOkSeq .set .none false false
   | .paren its _ => its.orderOkSeq .paren .none false false
   | .app f _ _ a => f.orderOkSeq && a.orderOkSeq
+  | .kw _ _ _ h _ _ _ _ b => h.orderOkSeq && b.orderOkSeq
 def Items.orderOkSeq : Items → Mode → Prev → Bool → Bool → Bool
   | .nil, _, _, _, _ => true
   | .cmt g _ rest, m, prev, pending, hasItem =>
@@ -140,6 +142,8 @@ def Expr.effAfter : Expr → Bool → List Trivia
   | .set _ _ _ _ _ a, na => if na then [] else a
   | .paren _ _ _ _ _ _ a, na => if na then [] else a
   | .app _ _ _ _ _ a, na => if na then [] else a
+  | .wth _ _ _ _ _ _ a, na => if na then [] else a
+  | .asrt _ _ _ _ _ a, na => if na then [] else a
 
 def closedB (ts : List Trivia) : Bool :=
   match ts.getLast? with
@@ -161,6 +165,8 @@ def Expr.inlineCleanB : Expr → Bool
   | .binding _ v _ _ _ => v.inlineCleanB
   | .paren v lg _ _ _ _ _ => ((Layout.fromGap lg).onNewline || v.before.isEmpty) && v.inlineCleanB
   | .app n x g _ _ _ => ((Layout.fromGap g).onNewline || x.before.isEmpty) && n.inlineCleanB && x.inlineCleanB
+  | .wth .. => false     -- `with` / `assert`: outside the spacing theorem so far (`File.basic`)
+  | .asrt .. => false
 def allInlineCleanB : List Expr → Bool
   | [] => true
   | e :: rest => e.inlineCleanB && allInlineCleanB rest
@@ -185,6 +191,8 @@ def Expr.beforeFlatB : Expr → Bool
   | .binding _ v _ _ _ => v.beforeFlatB
   | .paren v lg _ _ _ _ _ => ((Layout.fromGap lg).onNewline || v.before.isEmpty) && v.beforeFlatB
   | .app n x g _ _ _ => ((Layout.fromGap g).onNewline || x.before.isEmpty) && n.beforeFlatB && x.beforeFlatB
+  | .wth .. => false     -- `with` / `assert`: outside the spacing theorem so far (`File.basic`)
+  | .asrt .. => false
 def allBeforeFlatB : List Expr → Bool
   | [] => true
   | e :: rest => e.beforeFlatB && allBeforeFlatB rest
@@ -203,6 +211,8 @@ def Expr.beforeFlatG : Expr → Bool
   | .binding _ v _ _ _ => v.beforeFlatG
   | .paren v _ _ _ _ _ _ => v.beforeFlatG
   | .app n x _ _ _ _ => n.beforeFlatG && x.beforeFlatG
+  | .wth .. => false
+  | .asrt .. => false
 def allBeforeFlatG : List Expr → Bool
   | [] => true
   | e :: rest => e.beforeFlatG && allBeforeFlatG rest
@@ -220,12 +230,37 @@ def Expr.beforeFlatP : Expr → Bool
   | .binding _ v _ _ _ => v.beforeFlatP
   | .paren v lg _ _ _ _ _ => ((Layout.fromGap lg).onNewline || v.before.isEmpty) && v.beforeFlatP
   | .app n x _ _ _ _ => n.beforeFlatP && x.beforeFlatP
+  | .wth .. => false
+  | .asrt .. => false
 def allBeforeFlatP : List Expr → Bool
   | [] => true
   | e :: rest => e.beforeFlatP && allBeforeFlatP rest
 end
 
 def Src.beforeFlatP (s : Src) : Bool := allBeforeFlatP s.exprs
+
+/-! ### the part of the fragment without `with` / `assert`
+
+The theorems of C18 (spacing normal form), C02 and C06 (fixed point of comment-free files) are proved
+for the files without `with` and `assert` (containers, parentheses, calls); C01 and C03 cover the
+whole fragment. -/
+
+mutual
+def Cst.basic : Cst → Bool
+  | .leaf _ _ => true
+  | .list its _ => its.basic
+  | .set _ _ its _ => its.basic
+  | .paren its _ => its.basic
+  | .app f _ _ a => f.basic && a.basic
+  | .kw .. => false
+def Items.basic : Items → Bool
+  | .nil => true
+  | .cmt _ _ rest => rest.basic
+  | .elem _ c rest => c.basic && rest.basic
+  | .bind _ _ _ _ _ _ v _ _ rest => v.basic && rest.basic
+end
+
+def File.basic (f : File) : Bool := f.items.basic
 
 /-! ### comment-free files: the tree of the output (`C06.frag_fixed_point_comment_free`) -/
 
@@ -236,6 +271,7 @@ def Cst.cf : Cst → Bool
   | .set _ _ its _ => its.cf
   | .paren its _ => its.cf
   | .app f cs _ a => f.cf && cs.isEmpty && a.cf
+  | .kw .. => false     -- the normaliser `Cst.norm` does not cover `with` / `assert` yet
 def Items.cf : Items → Bool
   | .nil => true
   | .cmt _ _ _ => false
@@ -276,6 +312,7 @@ def Cst.norm : Cst → Nat → Cst
   | .app f cs g a, i =>
     .app (f.norm i) cs (if containsNL g then vgap g (indentFromGap g) else [' '])
       (a.norm (if containsNL g then indentFromGap g else i))
+  | .kw w c1 g1 h c2 g2 c3 g3 b, _ => .kw w c1 g1 h c2 g2 c3 g3 b     -- not covered by the normaliser
 /-- items of a container that spans several lines, one per line at indentation `j` -/
 def Items.normML : Items → Nat → Items
   | .nil, _ => .nil
